@@ -516,7 +516,8 @@ class RSocketBase(RSocket, RSocketInternal):
         stream_id = self._allocate_stream()
         frame = to_fire_and_forget_frame(stream_id, payload, self._fragment_size_bytes)
         self.send_request(frame)
-        frame.sent_future.add_done_callback(lambda _: self.finish_stream(stream_id))
+        # The id is allocated but never registered, so there is nothing to finish once the frame was sent;
+        # finishing it would remove a stream that has been registered under the same id in the meantime.
         return frame.sent_future
 
     def request_stream(self, payload: Payload) -> Union[BackpressureApi, Publisher]:
